@@ -254,7 +254,7 @@ MUT["C18"] = [
     dict(id="c18-return-last", what="the worst kept candidate is proposed", path=P_ES, functions=[ESQ], old="        return us[0], z[0]", new="        return us[-1], z[-1]", expect="proposal_has_lowest_acquisition"),
     dict(id="c18-sort-desc", what="candidates ordered by descending acquisition", path=P_ES, functions=[ESQ], old="            z_idx = np.argsort(z_candidates)", new="            z_idx = np.argsort(-z_candidates)", expect="c18_kept_sorted_prefix"),
     dict(id="c18-clobber", what="fallback overwrites the accumulated acquisition values (the repaired defect)", path=P_ES, functions=[ESQ],
-         old="                z_new = np.random.rand(u_new.shape[0])", new="                z_candidates = np.random.rand(u_new.shape[0])", expect="c18_same_length"),
+         old="                z_new = np.random.rand(u_new.shape[0])", new="                z_candidates = np.random.rand(u_new.shape[0])", expect="c18_pool_is_every_survivor"),
     dict(id="c18-no-filter", what="second and later ES generations are not filtered", path=P_ES, functions=[ESQ],
          old="            u_new = contraints_check(\n                u_new,", new="            u_new = u_new if i > 0 else contraints_check(\n                u_new,", expect="c18_candidates_in_box"),
     dict(id="c18-z-of-other", what="acquisition values paired with the previous generation", path=P_ES, functions=[ESQ],
@@ -295,6 +295,96 @@ MUT["C15"] = [
     dict(id="c15-t-off", what="t = func_count instead of func_count + 1", path=P_ACQ, functions=[ACQQ], old="    t = func_count + 1", new="    t = func_count", expect="lcb_is_mean_minus_sqrt_beta_times_sd"),
     dict(id="c15-var-not-sd", what="variance used as standard deviation", path=P_ACQ, functions=[ACQQ], old="    f_s = np.sqrt(f_s2)", new="    f_s = f_s2", expect="mean_and_sd_are_the_gp_prediction"),
 ]
+
+
+MUT["C16"] = [
+    dict(id="c16-wrong-except", what="retry loop catches the wrong exception class", path=P_GPT, functions=[GPTQ + "_robust_gp_fit_"],
+         old="            break\n        except np.linalg.LinAlgError:", new="            break\n        except TypeError:", expect="no-raise"),
+    dict(id="c16-one-try", what="only one attempt", path=P_GPT, functions=[GPTQ + "_robust_gp_fit_"], old="    n_try = 10\n", new="    n_try = 1\n", expect="no-raise::UnboundLocalError"),
+    dict(id="c16-no-break", what="success does not leave the retry loop", path=P_GPT, functions=[GPTQ + "_robust_gp_fit_"],
+         old="                X, Y, s2, hyp0=new_hyp, options=gp_train\n            )\n            break", new="                X, Y, s2, hyp0=new_hyp, options=gp_train\n            )", expect="_robust_gp_fit_"),
+    dict(id="c16-x-only", what="only the inputs are dropped after repeated failures", path=P_GPT, functions=[GPTQ + "_robust_gp_fit_"],
+         old="                Y = Y[~idx_drop_out]\n", new="", expect="c16_training_set_stays_consistent"),
+    dict(id="c16-s2-kept", what="noise vector not shortened with the training set (the repaired defect)", path=P_GPT, functions=[GPTQ + "_robust_gp_fit_"],
+         old="                if s2 is not None and not np.isscalar(s2):\n                    s2 = s2[~idx_drop_out]\n", new="", expect="c16_training_set_stays_consistent"),
+    dict(id="c16-init-no-count", what="initial training: failures not counted, same start point retried for ever", path=P_GPT, functions=[GPTQ + "init_and_train_gp"],
+         old="        except np.linalg.LinAlgError:\n            training_failures += 1", new="        except TypeError:\n            training_failures += 1", expect="raised_before_any_fit"),
+    dict(id="c16-update-uncaught", what="posterior update failure not caught", path=P_GPT, functions=[GPTQ + "local_gp_fitting"],
+         old="        gp.update(hyp=hyp_gp)\n    except np.linalg.LinAlgError:", new="        gp.update(hyp=hyp_gp)\n    except KeyError:", expect="no-raise"),
+]
+
+
+BCQ = [B + "._bounds_check_#D%d" % d for d in (1, 2, 3)]
+MUT["C08"] = [
+    dict(id="c08-no-order-test", what="second ordering test dropped", path=P_BADS, functions=BCQ[:2],
+         old="        # Test order of bounds\n        ordidx = (\n            (lower_bounds <= plausible_lower_bounds)\n            & (plausible_lower_bounds < plausible_upper_bounds)\n            & (plausible_upper_bounds <= upper_bounds)\n        )\n        if np.any(np.invert(ordidx)):",
+         new="        # Test order of bounds\n        ordidx = (\n            (lower_bounds <= plausible_lower_bounds)\n            & (plausible_lower_bounds < plausible_upper_bounds)\n            & (plausible_upper_bounds <= upper_bounds)\n        )\n        if False:", expect="normalised_order"),
+    dict(id="c08-equal-pb-ok", what="equal plausible bounds accepted", path=P_BADS, functions=BCQ[:1],
+         old="        if np.any(plausible_lower_bounds == plausible_upper_bounds):", new="        if False:", expect="_bounds_check_"),
+    dict(id="c08-x0-outside-ok", what="start point above the upper bound accepted", path=P_BADS, functions=BCQ[:1],
+         old="        if np.any(x0 < lower_bounds) or np.any(x0 > upper_bounds):", new="        if np.any(x0 < lower_bounds):", expect="accepted_definitions_are_valid"),
+    dict(id="c08-half-any", what="half-bounded test over all variables at once (the repaired defect)", path=P_BADS, functions=BCQ[1:2],
+         old="        if np.any(np.isfinite(lower_bounds) != np.isfinite(upper_bounds)):",
+         new="        if np.any(np.isfinite(lower_bounds)) and np.any(np.invert(np.isfinite(upper_bounds))) or np.any(np.invert(np.isfinite(lower_bounds))) and np.any(np.isfinite(upper_bounds)):",
+         expect="raise#9::raises_only_for_invalid_definitions"),
+    dict(id="c08-half-ok", what="half-bounded variables accepted", path=P_BADS, functions=BCQ[:1],
+         old="        if np.any(np.isfinite(lower_bounds) != np.isfinite(upper_bounds)):", new="        if False:", expect="accepted_definitions_are_valid"),
+    dict(id="c08-nonfinite-pb-ok", what="infinite plausible bounds accepted", path=P_BADS, functions=BCQ[:1],
+         old="        if np.any(np.invert(np.isfinite(plausible_lower_bounds))) or np.any(\n            np.invert(np.isfinite(plausible_upper_bounds))\n        ):", new="        if False:", expect="accepted_definitions_are_valid"),
+    dict(id="c08-x0-not-moved", what="start point on the bound is not moved inside", path=P_BADS, functions=BCQ[:1],
+         old="            x0 = np.maximum((np.minimum(x0, UB_eff)), LB_eff)", new="            x0 = x0 + 0.0", expect="start_point_strictly_inside_finite_hard_bounds"),
+    dict(id="c08-strict-le", what="equal hard and plausible bound rejected", path=P_BADS, functions=BCQ[:1],
+         old="            (lower_bounds <= plausible_lower_bounds)\n            & (plausible_lower_bounds < plausible_upper_bounds)\n            & (plausible_upper_bounds <= upper_bounds)\n        )\n        if np.any(np.invert(ordidx)):\n            raise ValueError(\n                \"\"\"bads:StrictBounds: For each variable, hard and\n            plausible bounds should respect the ordering lower_bounds < plausible_lower_bounds",
+         new="            (lower_bounds < plausible_lower_bounds)\n            & (plausible_lower_bounds < plausible_upper_bounds)\n            & (plausible_upper_bounds <= upper_bounds)\n        )\n        if np.any(np.invert(ordidx)):\n            raise ValueError(\n                \"\"\"bads:StrictBounds: For each variable, hard and\n            plausible bounds should respect the ordering lower_bounds < plausible_lower_bounds",
+         expect="raises_only_for_invalid_definitions_outside_margin_zone"),
+]
+
+
+MUT["C07"] = [
+    dict(id="c07-no-reseed", what="seed not re-applied at the start of optimize()", path=P_BADS, functions=[B + "._init_random_seed_"],
+         old="        self.optim_state[\"random_seed\"] = self._init_random_seed_()", new="        self.optim_state[\"random_seed\"] = self._random_seed", expect="scan::rng::seeded_before_first_draw::_init_optimization_"),
+    dict(id="c07-seed-after-x0", what="constructor seeds after the random start point was drawn", path=P_BADS, functions=[B + "._init_random_seed_"],
+         old="        # set up random seed\n        self._init_random_seed_()\n", new="", expect="scan::rng::seeded_before_first_draw::__init__"),
+    dict(id="c07-seed-ignored", what="seed option recorded but not applied", path=P_BADS, functions=[B + "._init_random_seed_"],
+         old="            np.random.seed(random_seed)\n", new="", expect="scan::rng::seed_is_applied_when_given"),
+    dict(id="c07-seed-off", what="seed recorded is not the user's", path=P_BADS, functions=[B + "._init_random_seed_"],
+         old="            random_seed = int(self.options[\"random_seed\"])", new="            random_seed = int(self.options[\"random_seed\"]) + 1", expect="seed_recorded"),
+    dict(id="c07-sobol-unseeded", what="Sobol design drawn with OS entropy", path="pybads/init_functions/init_sobol.py", functions=[B + "._init_random_seed_"],
+         old="    sobol_sampler = Sobol(u0.size, seed=seed)", new="    sobol_sampler = Sobol(u0.size)", expect="scan::rng::sobol_design_seeded_explicitly"),
+    dict(id="c07-module-cache", what="module-level cache of hedge state", path="pybads/search/search_hedge.py", functions=[B + "._init_random_seed_"],
+         old="        self.count += 1\n", new="        self.count += 1\n        _LAST.append(self.g.copy())\n", extra=[("class ESSearchHedge:", "_LAST = []\n\n\nclass ESSearchHedge:")],
+         expect="scan::global_state"),
+    dict(id="c07-class-cache", what="class-level dict cache keyed on mu (as in the seeded change)", path=P_ES, functions=[B + "._init_random_seed_"],
+         old="        self.mu = mu\n        self.lamb = lamb\n", new="        self.mu = mu\n        self.lamb = lamb\n        ESSearch._cache[mu] = lamb\n",
+         extra=[("    \"\"\"An Abstract class describing an Evolutionary Strategy Search.\"\"\"\n", "    \"\"\"An Abstract class describing an Evolutionary Strategy Search.\"\"\"\n    _cache = {}\n")],
+         expect="scan::global_state"),
+    dict(id="c07-clock", what="wall clock mixed into the search scale", path=P_ES, functions=[B + "._init_random_seed_"],
+         old="        self.scale = options_dict[\"es_start\"]", new="        import time\n        self.scale = options_dict[\"es_start\"] * (1 + 1e-9 * (time.time() % 1))", expect="scan::entropy"),
+]
+
+
+def scan_c07(index, registry):
+    return scans.rng_typestate(index, registry) + scans.global_state_frame(index, registry) + scans.entropy_sources(index, registry)
+
+
+P_OPT = "pybads/bads/options.py"
+MUT["C20"] = [
+    dict(id="c20-defaults-overwrite", what="defaults loaded over user options", path=P_OPT, functions=[],
+         old="            if key not in self.get(\"useroptions\") and key != \"useroptions\":", new="            if key != \"useroptions\":", expect="scan::options::defaults_never_overwrite_user_options"),
+    dict(id="c20-not-protected", what="user option names not recorded as protected", path=P_OPT, functions=[],
+         old="            self[\"useroptions\"].update(user_options.keys())\n", new="", expect="scan::options::user_options_applied_and_recorded_as_protected"),
+    dict(id="c20-unknown-accepted", what="unknown option names only warned about", path=P_OPT, functions=[],
+         old="                raise ValueError(\"The option {} does not exist.\".format(key))", new="                pass", expect="scan::options::unknown_option_name_raises_ValueError"),
+    dict(id="c20-module-cache", what="module-level cache of evaluated defaults (as in the seeded change)", path=P_OPT, functions=[],
+         old="        options_list = _read_config_file(options_path)\n", new="        options_list = _read_config_file(options_path)\n        _CACHE[options_path] = options_list\n",
+         extra=[("class Options(MutableMapping, dict):", "_CACHE = {}\n\n\nclass Options(MutableMapping, dict):")], expect="scan::global_state"),
+    dict(id="c20-clip-x0-in-place", what="caller's x0 clipped in place", path=P_BADS, functions=[],
+         old="            x0 = np.maximum((np.minimum(x0, UB_eff)), LB_eff)", new="            x0[:] = np.maximum((np.minimum(x0, UB_eff)), LB_eff)", expect="scan::options::caller_arrays_never_stored_into"),
+]
+
+
+def scan_c20(index, registry):
+    return scans.options_structure(index, registry) + scans.global_state_frame(index, registry)
 
 
 def scan_c14(index, registry):
@@ -453,6 +543,62 @@ PROPS = {
                     "noise as sd squared, earlier rows kept, same GP object returned. acq_fcn_lcb: mean - sqrt(0.2*2*log(D*(fc+1)^2*pi^2/(6*0.1))) * sqrt(s2) for the default schedule. "
                     "The metric itself (udist) is named by a ghost vector (its value is outside the clauses); BOUNDED: recomputation of the metric and of all clauses on random logs; "
                     "panel: every GP training set of full runs consists of logged pairs.",
+    ),
+    "C16": dict(
+        level="proof",
+        native=[dict(name="panel-gp-fit-faults", script="panel.py", args_quick=["--prop", "C16", "--runs", 2, "--gpfaults", 18], args_thorough=["--prop", "C16", "--runs", 4, "--gpfaults", 120], timeout=3000)],
+        replay=dict(script="panel.py", args=["--prop", "C16", "--runs", 2, "--gpfaults", 60], timeout=3000),
+        functions=[GPTQ + "_robust_gp_fit_", GPTQ + "init_and_train_gp", GPTQ + "local_gp_fitting"],
+        mutants=MUT["C16"],
+        explanation="Exceptional contracts with a ghost fault budget: GP.fit / GP.update(hyp=) (assumed contract on gpyreg) may raise LinAlgError as often as ghost.fault_budget allows. "
+                    "_robust_gp_fit_: with fewer than ten failures in a row no exception class leaves the function (LinAlgError is caught on every path; the loop invariant 'passes so far == "
+                    "failures so far' makes exhaustion impossible, so `res` is bound - opt-in UnboundLocalError semantics), and every GP.fit attempt receives one target and one noise variance "
+                    "per training input, also after points were dropped. init_and_train_gp: the retry loop terminates (variant: (not fitted, fault budget)) and nothing escapes. "
+                    "local_gp_fitting: the refit failure is absorbed by _robust_gp_fit_ (call-site preconditions proved), the posterior-update failure is caught. "
+                    "BOUNDED: full runs with the k-th hyper-parameter fit(s) failing (single, 2-4 in a row, scattered; all noise modes): optimize() completes and every other run-level "
+                    "oracle of the panel (bounds, budget, truthful result, history) still holds.",
+    ),
+    "C08": dict(
+        level="proof",
+        native=[dict(name="bounds-grid-bounded", script="bounds_model.py", args_quick=["--grid", 2500, "--multi", 300, "--spell", 8], args_thorough=["--grid", 0, "--multi", 4000, "--spell", 40], timeout=3000)],
+        replay=dict(script="bounds_model.py", args=["--grid", 4000, "--multi", 600, "--spell", 12], timeout=3000),
+        functions=BCQ,
+        scans=[scan_c01],
+        mutants=MUT["C08"],
+        explanation="_bounds_check_ under contract for D = 1, 2, 3 (the property's own range; literal shapes, quantifier-free queries, extended reals with NaN): "
+                    "normal return => the definition is valid (finite plausible bounds, lb <= plb < pub <= ub, x0 inside the hard bounds, every variable bounded or unbounded); "
+                    "ValueError => the definition is invalid (or in the recorded margin zone / next to the smallest normal float); accepted definitions come back with "
+                    "lb <= plb' < pub' <= ub, hard bounds unchanged, x0 strictly inside finite hard bounds. No target call: the single target call site is in FunctionLogger (scan). "
+                    "BOUNDED: the value grid of the property on the real constructor (D = 1 exhaustive in the thorough tier, D = 2, 3 sampled), spellings "
+                    "(scalar / list / tuple / (D,) / (1,D) / integer dtype) give the same normalised definition.",
+    ),
+    "C07": dict(
+        level="other",
+        native=[dict(name="reproducibility-bounded", script="repro_model.py", args_quick=["--runs", 5], args_thorough=["--runs", 30], timeout=3000)],
+        replay=dict(script="repro_model.py", args=["--runs", 8], timeout=3000),
+        functions=[B + "._init_random_seed_"],
+        scans=[scan_c07],
+        mutants=MUT["C07"],
+        explanation="A two-run hyperproperty is not a function contract; what is decided deductively is its cause. (i) RNG typestate: _init_random_seed_ (contract: records and applies "
+                    "int(options['random_seed']) whenever one is given) is called in __init__ and in _init_optimization_ before the first statement that transitively draws from NumPy's global "
+                    "generator (call-graph closure of np.random.* / rnd.* / gpyreg fit and samplers), optimize draws nothing before _init_optimization_, the Sobol design is seeded explicitly. "
+                    "(ii) global-state frame: no library function writes module-level or class-level state or a mutable default argument; the options loader's exec into its module globals "
+                    "is followed by the evals of the same call. (iii) entropy: only the timer reads the clock; no id/hash/urandom/default_rng. "
+                    "BOUNDED: the same problem run in a fresh state and after three kinds of process history is bit-identical (calls, x, fval, fsd, func_count, message).",
+    ),
+    "C20": dict(
+        level="exploration",
+        native=[dict(name="options-bounded", script="options_model.py", args_quick=["--dims", 2, "--pairs", 20, "--orders", 2], args_thorough=["--dims", 4, "--pairs", 400, "--orders", 24], timeout=3000)],
+        replay=dict(script="options_model.py", args=["--dims", 3, "--pairs", 60, "--orders", 6], timeout=3000),
+        functions=[],
+        scans=[scan_c20],
+        mutants=MUT["C20"],
+        explanation="BOUNDED STAND-IN (not a proof): the option loader is exec / eval / configparser / dict-subclass code that the verifier's language fragment does not cover, so the property is "
+                    "explored on the real constructor: every option name of both files x D = 1..3 (4 in the thorough tier) overridden one at a time, random subsets of overrides, unknown names, "
+                    "defaults compared with an independent evaluation of the file expressions for the instance's own D, four instances constructed and run in random orders with option "
+                    "snapshots compared, caller's dict and arrays compared before/after. Deductive part: structural obligations over the real source only (stores of defaults are guarded by the "
+                    "protected-names test, user names are recorded, unknown names raise, order of loading and validation in the constructor, no in-place store through a parameter that may alias "
+                    "a caller-owned array, no module-level or class-level writes in the library).",
     ),
     "C04": dict(
         level="proof",
